@@ -210,7 +210,9 @@ func (r *runner) runTwin(sc *Scenario) (*twin, bool) {
 			if cp.Step != last {
 				kk, last = 0, cp.Step
 			}
-			if sc.Steps[cp.Step].Op != "prune" {
+			// (a commit inside a kill step is the lazy filter initialisation of the observation
+			// that follows it; the model has no fault position there)
+			if op := sc.Steps[cp.Step].Op; op != "prune" && op != "kill" {
 				tw.trace.crash(cp.Step, kk, cp.Img)
 			}
 			kk++
@@ -370,11 +372,24 @@ func (r *runner) runFault(sc *Scenario, tw *twin, k int) {
 			all = append(all, p)
 		}
 	}
+	// the failing commit was a direct write of a lazy filter initialisation (a fill that crosses a
+	// window boundary persists the window): the model does not enumerate faults there
+	initFault := false
 	finish := func() {
 		if failedStep < 0 {
 			return
 		}
 		extra := map[string]any{"step": failedStep, "fault": "fail-commit", "k": k}
+		if initFault {
+			r.res.Hit("failed-commit-inside-filter-init")
+			if len(all) > 0 {
+				r.reportCause(sc, "running-filter-init-error-is-sticky-after-failed-write",
+					fmt.Sprintf("commit %d was the window write of a lazy running-filter initialisation (fill across a window boundary) inside step %d %s; "+
+						"the initialisation error is kept for the life of the instance (sync.Once): every later Store / RevertHead / event query returns it although the disk is intact.",
+						k, failedStep, &sc.Steps[failedStep]), all, "", extra)
+			}
+			return
+		}
 		r.reportCause(sc, cause, causeWhat, all, "", extra)
 		tr.compare(r, sc, extra)
 	}
@@ -416,6 +431,7 @@ func (r *runner) runFault(sc *Scenario, tw *twin, k int) {
 		}
 		// the injected failure surfaced here
 		failedStep, failedOp = i, s.Op
+		initFault = strings.Contains(err.Error(), "couldn't initialize the running event filter")
 		r.res.Hit("failed-commit:" + s.Op)
 		before := sc.worldBefore(i)
 		var ps problems
